@@ -111,7 +111,26 @@ let cmd_integrate line =
       [n.n_pos; n.n_mom; n.n_force]) s1.s_nodes;
   print_endline (Buffer.contents b)
 
-let commands : (string * (string -> unit)) list ref = ref [ ("kernel", cmd_kernel); ("grid", cmd_grid); ("integrate", cmd_integrate) ]
+(* ---------------------------------------------------------------- libm: the C library functions, as arguments of the models *)
+let w1 f = fun x -> Float64.of_float (f (Float64.to_float x))
+let libm : Float64.t libm = { lcos = w1 cos; lsin = w1 sin; ltan = w1 tan; lacos = w1 acos; llog = w1 log; lexp = w1 exp;
+  lcbrt = w1 Float.cbrt; lpow = (fun x y -> Float64.of_float (Float.pow (Float64.to_float x) (Float64.to_float y))) }
+
+(* ---------------------------------------------------------------- C04 cell cycle: elementary queries *)
+let cmd_cellcycle line =
+  let t = Array.of_list (toks line) in
+  let f i = f_of_s t.(i) in
+  match t.(0) with
+  | "STEP" -> let (vt, p) = cc_step_f libm (f 1) (f 2) (f 3) (f 4) (f 5) (f 6) (f 7) in Printf.printf "%s %s\n" (s_of_f vt) (s_of_f p)
+  | "READY" -> Printf.printf "%d\n" (if cc_ready_f (int_to_z (int_of_string t.(1))) (f 2) (f 3) then 1 else 0)
+  | "BELOW" -> Printf.printf "%d\n" (if cc_below_f (f 1) (f 2) then 1 else 0)
+  | "GROWTH" -> Printf.printf "%s\n" (s_of_f (cc_growth_f (f 1) (f 2) (f 3)))
+  | "DIVVOL" -> Printf.printf "%s\n" (s_of_f (cc_divvol_f (t.(1) = "1") (f 2) (f 3) (f 4)))
+  | "INIT" -> let vt = cc_initial_target_f libm (f 1) (f 2) (f 3) in
+              Printf.printf "%s %s\n" (s_of_f vt) (s_of_f (cc_pressure_f libm (f 3) (f 4) (f 1) vt))
+  | _ -> print_endline "?"
+
+let commands : (string * (string -> unit)) list ref = ref [ ("cellcycle", cmd_cellcycle); ("kernel", cmd_kernel); ("grid", cmd_grid); ("integrate", cmd_integrate) ]
 
 let () =
   let cmd = Sys.argv.(1) in
